@@ -853,6 +853,70 @@ def _table_accesses(fn, kinds):
     return out
 
 
+MUTATORS = ("append", "add", "extend", "update", "insert", "setdefault", "pop", "remove")
+
+
+def _assigned_names(stmts):
+    out = set()
+    for st in stmts:
+        for x in ast.walk(st):
+            tgts = []
+            if isinstance(x, ast.Assign):
+                tgts = x.targets
+            elif isinstance(x, (ast.AugAssign, ast.AnnAssign)):
+                tgts = [x.target]
+            elif isinstance(x, ast.For):
+                tgts = [x.target]
+            elif isinstance(x, ast.Call) and isinstance(x.func, ast.Attribute) and x.func.attr in MUTATORS \
+                    and isinstance(x.func.value, ast.Name):
+                out.add(x.func.value.id)
+            for t in tgts:
+                for y in ast.walk(t):
+                    if isinstance(y, ast.Name) and isinstance(y.ctx, ast.Store):
+                        out.add(y.id)
+    return out
+
+
+def _stale_reads(chk, rel, q, fn, ifnode, block, other, kind):
+    """`for atom ...: if key not in D: <block>`: a variable that, inside the loop, is advanced only in the
+    once-per-key block (running array / total / per-key temporary) holds, for every later atom of an already
+    seen key, the state left by the LAST appended key.  Reading it elsewhere in the loop body gives that atom a
+    value that belongs to another key; per-key state has to be read back from a table indexed by the key."""
+    loop = pf.enclosing(ifnode, (ast.For, ast.While))
+    encl = pf.enclosing_func(ifnode)
+    if loop is None or encl is not fn:
+        return
+    container = ifnode.test.comparators[0].id if isinstance(ifnode.test.comparators[0], ast.Name) else None
+    local_names = {a.arg for a in fn.args.args + fn.args.kwonlyargs} | {
+        y.id for y in ast.walk(fn) if isinstance(y, ast.Name) and isinstance(y.ctx, ast.Store)}
+    adv = (_assigned_names(block) & local_names) - {container}  # (np.append(...) does not mutate `np`)
+    if isinstance(loop, ast.For):
+        adv -= {y.id for y in ast.walk(loop.target) if isinstance(y, ast.Name)}
+    in_if = {id(x) for x in ast.walk(ifnode)}
+    outside_stmts = [st for st in ast.walk(loop) if isinstance(st, ast.stmt) and id(st) not in in_if and st is not loop]
+    adv -= _assigned_names(other)
+    adv -= _assigned_names([st for st in outside_stmts if not any(id(c) in in_if for c in ast.walk(st))])
+    in_block = {id(x) for st in block for x in ast.walk(st)}
+    inst = "%s:%s state advanced only under `%s` is not read elsewhere in the loop" % (rel, q, pf.src(ifnode.test))
+    bad = []
+    for x in ast.walk(loop):
+        if isinstance(x, ast.Name) and isinstance(x.ctx, ast.Load) and x.id in adv and id(x) not in in_block:
+            bad.append(x)
+    if not bad:
+        chk.ok("key-domain-stale", inst, nontrivial=bool(adv))
+        return
+    x = bad[0]
+    st = x
+    while st is not None and not isinstance(st, ast.stmt):
+        st = pf.parent(st)
+    chk.violation("key-domain-stale", rel, q, pf.src(st)[:140] if st is not None else x.id, x.lineno,
+                  "`%s` is advanced only inside the block executed once per %s key (`%s`), but it is read here for every "
+                  "atom: for an atom whose key was already seen it still holds the state left by the most recently "
+                  "appended key (two atoms of one kind separated by another kind get the other kind's offset). Record the "
+                  "per-key value in a table indexed by the key when the block runs and read it back" % (
+                      x.id, kind, pf.src(ifnode.test)), instance=inst)
+
+
 def rule_key_domain(chk):
     funcs = {}
     for rel in KEY_FILES:
@@ -902,6 +966,8 @@ def rule_key_domain(chk):
                             k1 = _kind_of(x.slice, kinds)
                             if k1 and k1 != k2:
                                 bad.append((x, k1))
+                # state that only this block advances must not be read elsewhere in the same loop body
+                _stale_reads(chk, rel, q, fn, n, block, n.orelse if isinstance(op, ast.NotIn) else n.body, k2)
                 if bad:
                     x, k1 = bad[0]
                     chk.violation("key-domain", rel, q, "%s under `%s`" % (pf.src(x), pf.src(n.test)), x.lineno,
@@ -969,6 +1035,8 @@ def _analyse_own(chk):
     chk.rule("xyz-slots", "feature slots ix+c are paired with Cartesian component c in the add_lp1_* / fill_l1_coeff_* functions")
     chk.rule("setup-invariance", "python set-up values derived from mol.atom_coords() reach scalars only through "
                                  "rotation/translation-invariant reductions of position differences")
+    chk.rule("key-domain-stale", "a variable advanced only inside a once-per-key block of a loop over atoms is not read "
+                                 "elsewhere in the loop body (per-key offsets are read back from a table indexed by the key)")
     chk.rule("key-domain", "per-atom tables are filled, tested and read with keys from one key function; once-per-key "
                            "blocks read only tables of that key kind; producer and consumer agree")
     chk.rule("translation", "grid and atom coordinates enter only as differences of equal components")
